@@ -473,8 +473,17 @@ func (c *Ctx) encodersWriteEveryByte() {
 				}
 				// the sum is the cursor behind the bytes only if it is used as a position (or returned, or flows into a
 				// phi that is); `dst[c+1] = x` uses c+1 as an index of a byte of the same field: not an advance
-				if !used[cur] && !c.flowsToPosition(bo, used) {
-					continue
+				if !used[cur] {
+					// not itself a position: a cursor only if it was computed from one (a sum, a phi); the count a callee
+					// returned (`return 1 + n`) is not
+					switch cur.(type) {
+					case *ssa.BinOp, *ssa.Phi:
+					default:
+						continue
+					}
+					if !c.flowsToPosition(bo, used) {
+						continue
+					}
 				}
 				if !c.flowsToPosition(bo, used) && !returned(bo) {
 					continue
